@@ -33,6 +33,12 @@ def run(ctx):
                             'towards the root is not later than either child of its new slot', floor=6)
     ctx.rule('R-C05a.cmp', 'the order the sift steps use is the strict lexicographic order of (tv_sec, tv_nsec) of the expiry: for all 9 '
                            'orderings of two expiries the earlier timer is at the root, and equal expiries are never exchanged', floor=18)
+    ctx.rule('R-C05a.range', 'the order is the order of ALL representable expiries, not only of nearby ones: for two expiries whose tv_sec '
+                             'differ by 2^31-1, 2^31, 3*2^31, 2^32 (+k), 2^63-1 or lie on either side of 2^31 / 2^32 the strictly earlier '
+                             'timer is at the root whichever is registered first, and every function that by role compares two timespecs '
+                             '(its verdict on small keys depends on their order only) gives on these boundary vectors the verdict it gives '
+                             'on small keys of the same order (integer conversions evaluated as C does: narrowing stores, casts, '
+                             'arguments, returns and arithmetic wrap in their type)', floor=16)
     ctx.rule('R-C05b', 'slot and back-index move together: after every call each timer in slot k has index k; only iv_timer.c writes '
                        'index / num_timers', floor=9)
     ctx.rule('R-C05c', 'what lies beyond the population is empty and the store follows the population across its capacity boundaries: '
@@ -42,6 +48,7 @@ def run(ctx):
     ctx.section(capacity)
     ctx.section(mixed)
     ctx.section(order_table)
+    ctx.section(full_range)
     ctx.section(writers)
 
 
@@ -407,6 +414,69 @@ def order_table(ctx):
                                                   'strictly earlier' if (a_earlier or b_earlier) else 'equal expiries keep their places',
                                                   '' if ok else ' -- violated: %s' % (fault.msg if fault else 'root is %s' % kfmt(S, root)))),
                        fn=S.f_reg.q)
+
+
+# ---------------------------------------------------------------------------------------
+# the order holds over the whole range of the field types
+# ---------------------------------------------------------------------------------------
+
+NS_MAX = 999999999
+# (name, tv_sec of the earlier expiry, tv_sec of the later one): differences and positions at which a value that passed
+# through a narrower (or differently signed) integer type changes sign or aliases a small value
+RANGE_PAIRS = [
+    ('d=2^31-1', 1000, 1000 + 2 ** 31 - 1),
+    ('d=2^31', 1000, 1000 + 2 ** 31),
+    ('d=3*2^31', 5, 5 + 3 * 2 ** 31),
+    ('d=2^32', 1000, 1000 + 2 ** 32),
+    ('d=2^32+7', 1000, 1000 + 2 ** 32 + 7),
+    ('d=2^63-1', 0, 2 ** 63 - 1),
+    ('across-2^31', 2 ** 31 - 1, 2 ** 31),
+    ('across-2^32', 2 ** 32 - 1, 2 ** 32),
+]
+
+
+def full_range(ctx):
+    # (a) through the public API: the earlier of two far-apart expiries is at the root; the nanoseconds are ordered against
+    # the seconds (a seconds difference that aliases 0 leaves the decision to them)
+    S = h05.Store(ctx.prog)
+    for (name, lo, hi) in RANGE_PAIRS:
+        near_key, far_key = (lo, NS_MAX), (hi, 0)
+        for inst in ('near-then-far', 'far-then-near'):
+            S.fresh()
+            near, far = S.timer(0, 'near'), S.timer(0, 'far')
+            for t, k in ((near, near_key), (far, far_key)):
+                t.cells[S.o_sec], t.cells[S.o_nsec] = k
+                S.key[t] = k
+            fault = None
+            for t in ((near, far) if inst == 'near-then-far' else (far, near)):
+                fault = fault or S.op('register', t)
+            ok = fault is None and S.slot(1) is near and S.slot(2) is far
+            ctx.ob('R-C05a.range', 'range:%s:%s' % (name, inst), ok, loc=S.f_reg.loc,
+                   detail='near = %d.%09d, far = %d.%09d registered %s: the root must be near%s'
+                          % (near_key + far_key + (inst, '' if ok else ' -- violated: %s' % (
+                              fault.msg if fault else 'slot 1 holds %s, slot 2 holds %s' % (kfmt(S, S.slot(1)), kfmt(S, S.slot(2)))))),
+                   fn=S.f_reg.q)
+    # (b) comparison functions by role
+    for (f, table) in h05.timespec_comparators(ctx.prog):
+        bad = None
+        n = 0
+        vectors = [(nm, lo, hi) for (nm, lo, hi) in RANGE_PAIRS] + [('equal-2^31', 2 ** 31, 2 ** 31), ('equal-2^63-1', 2 ** 63 - 1, 2 ** 63 - 1)]
+        for (name, lo, hi) in vectors:
+            for no, (na, nb) in (('<', (0, NS_MAX)), ('=', (NS_MAX, NS_MAX)), ('>', (NS_MAX, 0))):
+                for (so, a, b) in ((('<' if lo < hi else '='), (lo, na), (hi, nb)), (('>' if lo < hi else '='), (hi, na), (lo, nb))):
+                    n += 1
+                    try:
+                        got = h05.compare_verdict(ctx.prog, f, a, b)
+                    except h05.Fault as x:
+                        got = 'fault: %s' % x.msg
+                    want = table[(so, no)]
+                    if got != want and bad is None:
+                        bad = '%s(%d.%09d, %d.%09d) [%s] yields %s, on small keys with tv_sec %s and tv_nsec %s it yields %s' \
+                              % ((f.name,) + a + b + (name, h05.verdict_text(got), so, no, h05.verdict_text(want)))
+        ctx.ob('R-C05a.range', 'comparator:%s' % f.name, bad is None, loc=f.loc,
+               detail='%s compares two timespecs (on small keys its verdict is a function of their order: %s); %d boundary vectors%s'
+                      % (f.name, ' '.join('%s%s:%s' % (k[0], k[1], h05.verdict_text(v)) for k, v in sorted(table.items())), n,
+                         ' give the same verdicts' if bad is None else ' -- violated: ' + bad), fn=f.q)
 
 
 # ---------------------------------------------------------------------------------------
